@@ -4,15 +4,16 @@
 (* (BITRES iterated squarings, products split so that they stay below 2^31),     *)
 (* lies in 0..2^BITRES-1 and is monotone in r.                                   *)
 EXTENDS RangeDec32, TLC
-VARIABLE r
-Init == r \in 32768..65535
-Next == UNCHANGED r
-Spec == Init /\ [][Next]_r
-TellFracFormula == TellFracFormulaAt(r)
-TellFracMonotone == TellFracMonoAt(r)
+VARIABLE mant
+\* one initial state, one step that fans out (TLC enumerates initial states single-threaded)
+MInit == mant = 65535
+Next == mant = 65535 /\ mant' \in 32768..65534
+Spec == MInit /\ [][Next]_mant
+TellFracFormula == TellFracFormulaAt(mant)
+TellFracMonotone == TellFracMonoAt(mant)
 \* the whole counter on a constructed context: tell = ceil(tell_frac/8) for every magnitude
-TellFracVsTell == \A l \in 24..31 :
-                     LET rm == r * (2 ^ (l - 16)) - 1
+TellFracVsTell == \A lg \in 24..31 :
+                     LET rm == mant * (2 ^ (lg - 16)) - 1
                          tf == TellFracOf(40, rm, TRUE)  t == 40 - IlogP1(rm) IN
                      8 * (t - 1) < tf /\ tf <= 8 * t /\ tf = TellFracOf(40, rm, FALSE)
 =============================================================================
